@@ -2,7 +2,7 @@
 (function bodies as programs of the Python-string sub-language of coq/Model/PyStr.v).
 
   pitch_class_to_semitone, scale_degree_to_semitone, scale_degree_to_bitmap, quality_to_bitmap,
-  reduce_extended_quality, validate_chord_label, split, join, encode
+  reduce_extended_quality, validate_chord_label, split, join, encode, encode_many, rotate_bitmap_to_root
 
 This file maps syntax only (Python ast; mir_eval is never imported; anything outside the fragment raises
 TranslationError). What an operator / method does on each type of value is defined by the evaluator of
@@ -12,15 +12,17 @@ of Model/ChordParse.v for all inputs, with the callees instantiated by the model
 Accepted fragment
   def          positional-or-keyword parameters, defaults = literal (None / bool / int / str) or a module constant
                of GLOBALS; no decorator, *args, **kwargs
-  statements   x = e | x1, ..., xk = e | x op= e (op: + - * %) | x[i] = e | x.update(e) | <callee>(...) |
+  statements   x = e | x1, ..., xk = e | x op= e (op: + - * %) | x[i] = e | x1[i1], ..., xk[ik] = e | x.update(e) |
+               <callee>(...) |
                if / elif / else | for <name or tuple of names> in e: (no else / break / continue) |
-               return [e] | raise <Exception>(<message>[, <name>]) | pass
+               return [e] | raise <Exception>(<message>[, <name>]) | assert e, <literal> | pass
                (no statement after a return / raise in the same block)
   expressions  parameters and locals, module constants of GLOBALS, None / bool / int / str literals, -<int literal>,
                tuples, lists, one comparison (== != < <= > >= in `not in` `is None` `is not None`), not / and / or,
                a if c else b, + - * %, e[i], [body for x in e] (one generator, no condition),
                e.startswith / count / strip / split / lower / join / get (positional arguments only),
                e.astype(np.int64), str() set() dict() enumerate() len() np.array() with positional arguments,
+               np.zeros(<shape>, dtype=np.int64), np.asarray(e) np.nonzero(e) np.zeros_like(e) list(e) tuple(e) e.ndim,
                CHORD_RE.match(e) (kept as the opaque callee "CHORD_RE.match"),
                calls of the functions of FUNCS (opaque callees, arguments as written: positional and keyword).
 What this file decides itself
@@ -44,12 +46,14 @@ from .common import module, top_func, codes, TranslationError, HEADER
 OUTPUTS = ['ChordParseGen.v']
 
 FUNCS = ['pitch_class_to_semitone', 'scale_degree_to_semitone', 'scale_degree_to_bitmap', 'quality_to_bitmap',
-         'reduce_extended_quality', 'validate_chord_label', 'split', 'join', 'encode']
+         'reduce_extended_quality', 'validate_chord_label', 'split', 'join', 'encode', 'encode_many',
+         'rotate_bitmap_to_root']
 GLOBALS = ['BITMAP_LENGTH', 'NO_CHORD', 'X_CHORD', 'NO_CHORD_ENCODED', 'X_CHORD_ENCODED', 'PITCH_CLASSES', 'SCALE_DEGREES',
            'QUALITIES', 'EXTENDED_QUALITY_REDUX']
 PRIMS = {'CHORD_RE.match': ['string']}            # opaque callees that are not functions of the module
-BUILTINS = {'str': (1, 1), 'set': (0, 1), 'dict': (0, 0), 'enumerate': (1, 1), 'len': (1, 1)}    # name: (min, max) arguments
-COPYING = {'str', 'set', 'dict', 'len', 'np.array', 'enumerate'}      # results never alias their arguments' containers
+BUILTINS = {'str': (1, 1), 'set': (0, 1), 'dict': (0, 0), 'enumerate': (1, 1), 'len': (1, 1), 'list': (1, 1), 'tuple': (1, 1)}    # name: (min, max) arguments
+COPYING = {'str', 'set', 'dict', 'len', 'np.array', 'enumerate', 'np.zeros', 'np.nonzero', 'np.zeros_like', 'list', 'tuple'}
+NP1 = {'np.array', 'np.asarray', 'np.nonzero', 'np.zeros_like'}          # NumPy functions taken with one positional argument      # results never alias their arguments' containers
 METHODS = {'startswith': (1, 1), 'count': (1, 1), 'strip': (0, 1), 'split': (1, 1), 'lower': (0, 0), 'join': (1, 1),
            'get': (1, 2)}
 STR_METHODS = {'startswith', 'count', 'strip', 'split', 'lower', 'join'}     # results are new / immutable objects
@@ -60,7 +64,7 @@ EXN = {'InvalidChordException': 'InvalidChord', 'ValueError': 'ValueError', 'Typ
        'IndexError': 'IndexError', 'ZeroDivisionError': 'ZeroDivisionError'}
 CMP = {ast.Eq: 'Eq', ast.NotEq: 'Ne', ast.Lt: 'Lt', ast.LtE: 'Le', ast.Gt: 'Gt', ast.GtE: 'Ge'}
 BIN = {ast.Add: 'Add', ast.Sub: 'Sub', ast.Mult: 'Mul', ast.Mod: 'Mod'}
-RESERVED = set(BUILTINS) | {'np', 're', 'CHORD_RE', 'list', 'True', 'False', 'None', 'super', 'Exception'} | set(EXN)
+RESERVED = set(BUILTINS) | {'np', 're', 'CHORD_RE', 'True', 'False', 'None', 'super', 'Exception'} | set(EXN)
 EXPECTED_EXC_INIT = ("def __init__(self, message='', chord_label=None):\n    self.message = message\n"
                      "    self.chord_label = chord_label\n    self.name = self.__class__.__name__\n"
                      "    super(InvalidChordException, self).__init__(message)")
@@ -74,7 +78,7 @@ def fail(msg, node=None):
 
 
 def cstr(s):
-    if not (isinstance(s, str) and s.isidentifier() and s.isascii() or s in PRIMS or s.startswith('np.') or s == 'astype_int64'):
+    if not (isinstance(s, str) and s.isidentifier() and s.isascii() or s in PRIMS or s in NP1 or s == 'np.zeros_int64'):
         fail('unusual name %r' % (s,))
     return '"%s"' % s
 
@@ -112,7 +116,7 @@ def check_module(tree):
              and n.names[0].name == 'numpy' and n.names[0].asname == 'np']
     if len(tops.get('np', [])) != 1 or len(np_ok) != 1:
         fail('`np` is not bound exactly once by `import numpy as np`')
-    for b in list(BUILTINS) + ['list', 'super', 'Exception']:
+    for b in list(BUILTINS) + ['super', 'Exception']:
         if b in tops:
             fail('builtin %r is rebound at module level' % b)
     for f in FUNCS:
@@ -186,7 +190,7 @@ class Fn:
         for sub in ast.walk(node):
             if sub is not node and isinstance(sub, (ast.Lambda, ast.FunctionDef, ast.AsyncFunctionDef, ast.ClassDef, ast.Global,
                                                     ast.Nonlocal, ast.NamedExpr, ast.Await, ast.Yield, ast.YieldFrom, ast.While,
-                                                    ast.Try, ast.With, ast.Break, ast.Continue, ast.Delete, ast.Assert,
+                                                    ast.Try, ast.With, ast.Break, ast.Continue, ast.Delete,
                                                     ast.Import, ast.ImportFrom, ast.Starred, ast.SetComp, ast.DictComp,
                                                     ast.GeneratorExp, ast.AnnAssign, ast.JoinedStr, ast.Slice, ast.Set,
                                                     ast.Dict)):
@@ -240,7 +244,7 @@ class Fn:
                     return f.id in self.fresh_callees
                 return False
             if isinstance(f, ast.Attribute):
-                if ast.unparse(f) == 'np.array':
+                if ast.unparse(f) in ('np.array', 'np.zeros', 'np.nonzero', 'np.zeros_like'):
                     return True
                 if f.attr in STR_METHODS or f.attr == 'astype':
                     return True
@@ -271,6 +275,8 @@ class Fn:
             if isinstance(f, ast.Attribute) and fname not in PRIMS:
                 if f.attr in STR_METHODS or f.attr == 'astype':
                     return set()
+                if f.attr == 'get':
+                    return out            # an element (or the default), never the container itself
                 out |= self.escaping(f.value)
             return out
         return set()           # constants, arithmetic, comparisons, not: new or immutable objects
@@ -288,11 +294,15 @@ class Fn:
                     bindings[t.id].append(sub.value)
                     alias_sites.append((sub.value, t.id))
                 elif isinstance(t, ast.Tuple):
+                    # the pieces of s.split(...) are new strings; the rows of a new np.zeros array are views of a base
+                    # that nothing else can reach
                     ok = isinstance(sub.value, ast.Call) and isinstance(sub.value.func, ast.Attribute) \
-                        and sub.value.func.attr == 'split'
+                        and (sub.value.func.attr == 'split' or ast.unparse(sub.value.func) == 'np.zeros')
                     for m in t.elts:
                         if isinstance(m, ast.Name):
                             bindings[m.id].append(ast.Constant(value='') if ok else None)
+                        elif isinstance(m, ast.Subscript) and isinstance(m.value, ast.Name):
+                            self.written.add(m.value.id)
                     alias_sites.append((sub.value, None))
                 elif isinstance(t, ast.Subscript) and isinstance(t.value, ast.Name):
                     self.written.add(t.value.id)
@@ -413,6 +423,8 @@ class Fn:
             return '(EComp %s %s %s)' % (cstr(x), self.ex(n.elt, comp + (x,)), self.ex(g.iter, comp))
         if isinstance(n, ast.Call):
             return self.call(n, comp)
+        if isinstance(n, ast.Attribute) and n.attr == 'ndim' and isinstance(n.ctx, ast.Load):
+            return '(EBuiltin "ndim" [%s])' % self.ex(n.value, comp)
         fail('expression outside the accepted fragment', n)
 
     def call(self, n, comp):
@@ -440,10 +452,15 @@ class Fn:
             fail('call of an unknown function %r' % f.id, n)
         if isinstance(f, ast.Attribute):
             full = ast.unparse(f)
-            if full == 'np.array':
+            if full in NP1:
                 if n.keywords or len(pos) != 1:
-                    fail('np.array with unexpected arguments', n)
-                return '(EBuiltin "np.array" %s)' % clist(pos)
+                    fail('%s with unexpected arguments' % full, n)
+                return '(EBuiltin %s %s)' % (cstr(full), clist(pos))
+            if full == 'np.zeros':
+                if len(pos) != 1 or len(n.keywords) != 1 or n.keywords[0].arg != 'dtype' \
+                        or ast.unparse(n.keywords[0].value) != 'np.int64':
+                    fail('np.zeros is accepted as np.zeros(<shape>, dtype=np.int64) only', n)
+                return '(EBuiltin "np.zeros_int64" %s)' % clist(pos)
             if full in PRIMS:
                 if n.keywords or len(pos) != len(PRIMS[full]):
                     fail('%s with unexpected arguments' % full, n)
@@ -525,6 +542,10 @@ class Fn:
     def stmt(self, s, ind):
         if isinstance(s, ast.Pass):
             return ['SPass']
+        if isinstance(s, ast.Assert):
+            if s.msg is not None and not (isinstance(s.msg, ast.Constant) and isinstance(s.msg.value, str)):
+                fail('assert with a computed message', s)
+            return ['SAssert %s' % self.ex(s.test)]
         if isinstance(s, ast.Expr):
             v = s.value
             if isinstance(v, ast.Call) and isinstance(v.func, ast.Attribute) and v.func.attr == 'update':
@@ -544,6 +565,20 @@ class Fn:
             t = s.targets[0]
             if isinstance(t, ast.Name):
                 return ['SAssign %s %s' % (cstr(t.id), self.ex(s.value))]
+            if isinstance(t, ast.Tuple) and len(t.elts) >= 2 and all(
+                    isinstance(m, ast.Subscript) and isinstance(m.value, ast.Name) for m in t.elts):
+                items = []
+                for m in t.elts:
+                    x = m.value.id
+                    if x not in self.locals:
+                        fail('item assignment into something that is not a local', s)
+                    if not self.unshared(x):
+                        fail('in-place write into %r, which may be shared (a binding that is not a fresh object, or the '
+                             'name flows elsewhere)' % x, s)
+                    items.append('(%s, %s)' % (cstr(x), self.ex(m.slice)))
+                if len({m.value.id for m in t.elts}) != len(t.elts):
+                    fail('the same array twice in one unpacking target', s)
+                return ['SUnpackItems %s %s' % (clist(items), self.ex(s.value))]
             if isinstance(t, ast.Tuple):
                 if len(t.elts) < 2 or not all(isinstance(m, ast.Name) for m in t.elts) \
                         or len({m.id for m in t.elts}) != len(t.elts):
